@@ -330,6 +330,9 @@ class Proto:
     def run(self, max_rounds=6):
         facts = self.facts
         fns = [f for f in facts.crate_fns() if f.name in self.touch]
+        # helpers that receive the guard's referent (&mut JobQueueCore / &JobQueueCore / the guard itself) are analysed inlined at their call sites
+        self.inline_only = set(f.name for f in fns if self._takes_core(f))
+        fns = [f for f in fns if f.name not in self.inline_only]
         self.fns = fns
         # ActiveQueue's drop runs as part of the owner's unwinding
         for f in fns:
@@ -372,6 +375,13 @@ class Proto:
             prev_sig = sig
         self.rounds = rnd + 1
         return self
+
+    @staticmethod
+    def _takes_core(fn):
+        if fn.is_closure:
+            # closures get the guard as a parameter (Result::map(|mut core| ..)); those are entered with the region open already
+            return False
+        return any(JQC in clean_ty(i) for i in fn.j.get('inputs', []))
 
     def closure_NO(self, P):
         out = set(P)
@@ -447,6 +457,45 @@ class Proto:
         cache[fn.name] = res
         return res
 
+    def _evn(self, fn):
+        """Events of an inlined helper belong to the function whose critical section it runs in."""
+        return getattr(self, '_attr', None) or fn.name
+
+    def _inline(self, callee, st, record, depth=0, caller=None):
+        """Runs a helper that operates on the caller's locked JobQueueCore as if its body were written at the call site."""
+        held = self.H(callee)
+        init = st._replace(V=())
+        inn = defaultdict(set)
+        inn[0].add(init)
+        work = [0]
+        done = {}
+        sink = []
+        n = 0
+        self._inline_depth = getattr(self, '_inline_depth', 0) + 1
+        outer_attr = getattr(self, '_attr', None)
+        if outer_attr is None and caller is not None:
+            self._attr = caller.name
+        try:
+            while work:
+                bb = work.pop()
+                cur = frozenset(inn[bb])
+                if done.get(bb) == cur:
+                    continue
+                done[bb] = cur
+                for x in cur:
+                    n += 1
+                    if n > 20000:
+                        self.problems.append('store explosion while inlining %s' % callee.name)
+                        return []
+                    for tgt, x2 in self._block(callee, bb, x, held, frozenset(), record, sink, force_region=True):
+                        if x2 not in inn[tgt]:
+                            inn[tgt].add(x2)
+                            work.append(tgt)
+        finally:
+            self._inline_depth -= 1
+            self._attr = outer_attr
+        return sink
+
     # -- helpers for the interpreter ----------------------------------------------------
     def _enter_region(self, st):
         if st.T == 'H' and st.P is not None:
@@ -466,7 +515,7 @@ class Proto:
     def _leave_region(self, st, fn=None, record=False):
         if record and fn is not None and st.S is not None:
             enums = tuple(sorted(set(v[1] for l, v in st.V if v and v[0] == 'enum' and self._is_local_enum(fn, l))))
-            self.events[('region_exit', fn.name, '')].add((st.S, st.T, enums, st.len0, st.own, st.S0 if st.S0 is not None else st.S))
+            self.events[('region_exit', self._evn(fn), '')].add((st.S, st.T, enums, st.len0, st.own, st.S0 if st.S0 is not None else st.S))
         P = st.S if st.T == 'H' else None
         pan = 1 if (st.S == frozenset(['Panicked']) and st.T == 'N') else st.pan
         pre = st.S0 if st.S0 is not None else st.S
@@ -525,21 +574,21 @@ class Proto:
         return self.facts.variants(head)
 
     # -- one block ------------------------------------------------------------------------
-    def _block(self, fn, bb, st, held, core_guards, record, exits):
+    def _block(self, fn, bb, st, held, core_guards, record, exits, force_region=False):
         """Yields (target bb, store) for the normal-flow successors of bb when entered with st."""
         b = fn.blocks[bb]
         stores = [st]
         nst = len(b['stmts'])
-        in_region = bool(core_guards & held.before.get((bb, 0), frozenset())) if core_guards else False
+        in_region = force_region or (bool(core_guards & held.before.get((bb, 0), frozenset())) if core_guards else False)
         for i, s in enumerate(b['stmts']):
-            now = bool(core_guards & held.before.get((bb, i), frozenset())) if core_guards else False
+            now = force_region or (bool(core_guards & held.before.get((bb, i), frozenset())) if core_guards else False)
             stores = self._region_edge(stores, in_region, now, fn, record)
             in_region = now
             new = []
             for x in stores:
                 new.extend(self._stmt(fn, bb, i, s, x, record))
             stores = new
-        now = bool(core_guards & held.before.get((bb, nst), frozenset())) if core_guards else False
+        now = force_region or (bool(core_guards & held.before.get((bb, nst), frozenset())) if core_guards else False)
         stores = self._region_edge(stores, in_region, now, fn, record)
         in_region = now
         t = b['term']
@@ -550,6 +599,9 @@ class Proto:
             out.extend(self._term(fn, bb, t, x, held, core_guards, record, exits, in_region))
         # region bookkeeping at block entry of successors is derived from `held.entry`
         for tgt, x in out:
+            if force_region:
+                yield tgt, x
+                continue
             tgt_in = bool(core_guards & held.before.get((tgt, 0), frozenset())) if core_guards else False
             cur_in = x.S is not None
             if cur_in and not tgt_in:
@@ -588,7 +640,7 @@ class Proto:
             return [st]
         l = pl['l']
         if rv['k'] == 'agg' and rv.get('adt') == ACTIVE_QUEUE and record:
-            self.events[('guard_new', fn.name, '')].add(st.T)
+            self.events[('guard_new', self._evn(fn), '')].add(st.T)
         val = self._rvalue_val(fn, st, rv, bb, i, record)
         return [vset(st, l, val)]
 
@@ -691,10 +743,10 @@ class Proto:
                     x = x._replace(sched=1)
                 if role == 'owner' and s2 in UNOWNED and st.pend:
                     if record:
-                        self.viol.append(('TOK-requeue', fn.name, 'release to %s while a job that returned Pending has not been put back' % s2, fn.loc(bb, i)))
+                        self.viol.append(('TOK-requeue', self._evn(fn), 'release to %s while a job that returned Pending has not been put back' % s2, fn.loc(bb, i)))
                 if record:
-                    self.events[('write', fn.name, '')].add((s, s2, role))
-                    self.events[('writesite', fn.name, (bb, i))].add((s, s2, role, st.own, st.len0))
+                    self.events[('write', self._evn(fn), '')].add((s, s2, role))
+                    self.events[('writesite', self._evn(fn), (bb, i))].add((s, s2, role, st.own, st.len0))
                 out.append(x)
         return out
 
@@ -716,6 +768,9 @@ class Proto:
         ret = vget(st, 0)
         if ret is not None and ret[0] not in ('bool', 'enum'):
             ret = None
+        if isinstance(exits, list):
+            exits.append((st, ret))     # inlined helper: hand the whole store back to the caller
+            return
         exits.add((st.T, st.P if st.T == 'H' else None, ret))
         if record:
             if st.resched:
@@ -723,10 +778,10 @@ class Proto:
             if st.sched:
                 self.viol.append(('TOK-pending', fn.name, 'queue marked Pending but not (pushed on the schedule and a thread asked) before returning', fn.loc(bb)))
             if st.pend:
-                self.viol.append(('TOK-requeue', fn.name, 'returns while a job that returned Pending has not been put back', fn.loc(bb)))
-            self.events[('exit', fn.name, '')].add((st.T, ret))
-            self.events[('exit_pan', fn.name, '')].add((st.pan, ret))
-            self.events[('exit_act', fn.name, '')].add((st.pre, st.act))
+                self.viol.append(('TOK-requeue', self._evn(fn), 'returns while a job that returned Pending has not been put back', fn.loc(bb)))
+            self.events[('exit', self._evn(fn), '')].add((st.T, ret))
+            self.events[('exit_pan', self._evn(fn), '')].add((st.pan, ret))
+            self.events[('exit_act', self._evn(fn), '')].add((st.pre, st.act))
 
     def _switch(self, fn, bb, t, st):
         d = t['discr']
@@ -911,7 +966,7 @@ class Proto:
         ex = self.is_exec_site(fn, t)
         if ex:
             if record:
-                self.events[('exec', fn.name, ex)].add(st.T)
+                self.events[('exec', self._evn(fn), ex)].add(st.T)
             if st.T == 'N' and not (fn.name in self.requires_held):
                 # the function runs jobs without having acquired: it needs the token from its caller
                 self.requires_held.add(fn.name)
@@ -971,7 +1026,7 @@ class Proto:
             e = fn.expr_of_operand(args[0])
             if self.is_queue_place_expr(e):
                 if record:
-                    self.events[('pop', fn.name, name.split('::')[-1])].add((st.S if st.S is not None else self.ALL, st.T))
+                    self.events[('pop', self._evn(fn), name.split('::')[-1])].add((st.S if st.S is not None else self.ALL, st.T))
                 return done(st._replace(len0='?'), None)
             return done(st, None)
         if name in ('core::option::Option::is_none', 'core::option::Option::is_some'):
@@ -996,20 +1051,33 @@ class Proto:
             return done(st._replace(pend=0), None)
         if name in ('std::panicking::begin_panic', 'core::panicking::panic', 'core::panicking::panic_fmt'):
             if record:
-                self.events[('panic', fn.name, '')].add(st.pan)
+                self.events[('panic', self._evn(fn), '')].add(st.pan)
             return []
 
-        # in-crate callees with summaries
+        # helpers working on the locked core: inlined
         callees, foreign = self.callees(fn, t)
+        inl = [c for c in callees if c in getattr(self, 'inline_only', ())]
+        if inl:
+            if st.S is None or getattr(self, '_inline_depth', 0) >= 2:
+                self.problems.append('%s is handed the queue core outside a critical section, or helpers nest too deeply (from %s)' % (short(inl[0]), short(fn.name)))
+                return done(st, None)
+            outs = []
+            for c in inl:
+                for (x, ret) in self._inline(self.facts.fn(c), st, record, caller=fn):
+                    # the callee's locals are gone; keep the caller's
+                    y = x._replace(V=st.V)
+                    outs.extend(done(y, ret))
+            return outs
+        # in-crate callees with summaries
         callees = [c for c in callees if c in self.touch]
         if callees:
             outs = []
             for c in sorted(callees):
                 crh = c in self.requires_held
                 if record:
-                    self.events[('call', fn.name, c)].add((st.T, crh))
+                    self.events[('call', self._evn(fn), c)].add((st.T, crh))
                     if crh:
-                        self.events[('call_acq', fn.name, c)].add(st.acq0)
+                        self.events[('call_acq', self._evn(fn), c)].add(st.acq0)
                     if crh and st.T == 'H' and st.P is not None:
                         self._entryP_new[c] |= set(st.P)
                 if crh and st.T != 'H':
